@@ -267,3 +267,44 @@ PROPS["C17"] = {
     "assumptions": ["the expected-GUID check needs an address with a guid= key (real socket); it is exercised by the thorough real-socket layer only",
                     "the property only constrains success (necessary condition); extra lenience such as a second OK is not judged"],
 }
+
+PROPS["C18"] = {
+    "level": "exploration",
+    "plan": zb_plan(("release", "miri")),
+    "rule": ("2..12 harness tasks each sending 1..6 library-built messages (unique (sender, seq) bodies, 0..9 kB padding, 0..2 fds) on one "
+             "connection whose scripted write half accepts 1/3/7/16/64/4096/all bytes per call and stalls 0/20/50/80% of calls, under 4 "
+             "scheduler biases; the captured (bytes, fds) call sequence is framed by the reference parser: every frame is a sent message, "
+             "each sent message appears once, per-sender order holds, fds are passed with the call carrying offset 0 and no other; "
+             "distinct = distinct schedule fingerprints; class other-sender-polled-mid-message must be observed"),
+    "gates": {"quick": {"evaluations": 3000, "distinct": 2500, "class:other-sender-polled-mid-message": 500, "messages_checked": 20000},
+              "thorough": {"evaluations": 150000, "distinct": 100000}},
+    "assumptions": ["senders are never cancelled in the middle of a partial write (a dropped send future leaves half a message on the wire: observation in DESIGN.md, outside the property)"],
+}
+
+PROPS["C19"] = {
+    "level": "exploration",
+    "plan": zb_plan(("release", "miri")),
+    "rule": ("1..24 concurrent callers (call_method and Proxy::call_noreply) against a scripted peer that answers in PRNG order with returns, "
+             "errors, never-answered calls, stray replies for unknown serials, duplicate replies for answered serials and interleaved "
+             "signals, in random read chunks, under 5 scheduler biases (incl. reply fully processed before the caller is polled again); "
+             "some fully-sent callers are cancelled; finally the transport fails (EOF or reset); call table oracle: reply serial and body "
+             "are the ones the peer produced for that call, no-reply calls finish without inbound traffic, unanswered calls stay pending "
+             "until the failure and then fail; distinct = distinct schedule fingerprints"),
+    "gates": {"quick": {"evaluations": 2500, "distinct": 2000, "class:reply-processed-before-caller-polled": 1000, "class:out-of-order-replies": 500,
+                        "class:stray-replies": 1000, "class:cancelled": 100, "class:failed-on-transport-error": 300, "class:no-reply-expected": 300},
+              "thorough": {"evaluations": 120000, "distinct": 100000}},
+    "assumptions": ["method_timeout (wall-clock) is exercised only by the thorough real-time mini-workload"],
+}
+
+PROPS["C20"] = {
+    "level": "exploration",
+    "plan": zb_plan(("release", "miri")),
+    "rule": ("histories of 3..8 rounds separated by quiescence; in each round stream creations (5 rules incl. equal and overlapping ones, "
+             "queue capacities 1/2/3/64), drops (sync Drop, async_drop, clone-then-drop-original) race with 0..6 labelled incoming signals "
+             "under 5 scheduler biases; a stream live through a whole round must receive exactly the matching messages of that round in "
+             "order, messages of its creation/drop round are optional, anything else forbidden; at every quiescent point the "
+             "cfg(zbus_verif) snapshot must show refcount(rule) == live handles; distinct = distinct (ops, schedule)"),
+    "gates": {"quick": {"evaluations": 2500, "distinct": 2000, "streams_checked": 10000, "messages_sent": 20000, "class:history-with-clone": 200},
+              "thorough": {"evaluations": 120000, "distinct": 100000}},
+    "assumptions": ["messages are labelled by construction; the matching predicate of the 5 rules is the harness's own (C21 judges the library matcher)"],
+}
